@@ -683,67 +683,100 @@ Proof.
   apply v_eqb_eq in D. congruence.
 Qed.
 
-Lemma rt_specs_id h sc (P : valobj -> Prop) ndev specs acc :
+Lemma de_dims_ser dims : de_dims (map (fun d => (sd_axis d, sd_shards d)) dims) = dims.
+Proof. unfold de_dims. rewrite map_map. simpl. induction dims as [|[a k] r IH]; simpl; [reflexivity|]. rewrite IH. reflexivity. Qed.
+
+Lemma de_cfgs_ser cfgs : de_cfgs cfgs (map (fun c => (c_name c, c_ndev c)) cfgs) = cfgs.
+Proof. induction cfgs as [|[i n d] r IH]; simpl; [reflexivity|]. rewrite IH. reflexivity. Qed.
+
+Lemma de_specs_id h sc (P : valobj -> Prop) ndev specs acc :
   (forall v, P v -> resolve h sc (name_of h v) = Some v) -> Forall (spec_ok P ndev) specs ->
-  rt_specs h sc specs acc = (specs, acc).
+  de_specs h sc (map (ser_spec h) specs) acc = (specs, acc).
 Proof.
   intros HP F. induction specs as [|sp r IH]; simpl; [reflexivity|].
   inversion F as [|? ? [Hsp _] Hr]; subst. rewrite (HP _ Hsp).
-  rewrite (IH Hr). destruct sp; reflexivity.
+  rewrite (IH Hr). rewrite de_dims_ser. destruct sp; reflexivity.
 Qed.
 
-Lemma rt_dcs_id h sc (P : valobj -> Prop) dcs acc :
+Lemma de_dcs_id h sc (P : valobj -> Prop) dcs acc :
   cfgs_ok (s_cfgs h) -> (forall v, P v -> resolve h sc (name_of h v) = Some v) ->
-  Forall (dc_ok (s_cfgs h) P) dcs -> rt_dcs h (s_cfgs h) sc dcs acc = (dcs, acc).
+  Forall (dc_ok (s_cfgs h) P) dcs -> de_dcs h (s_cfgs h) sc (map (ser_dc_raw h) dcs) acc = (dcs, acc).
 Proof.
   intros [Hd _] HP F. induction dcs as [|dc r IH]; simpl; [reflexivity|].
   inversion F as [|? ? [Hc Hs] Hr]; subst. rewrite (find_last_registered _ _ Hd Hc).
-  rewrite (rt_specs_id h sc P _ _ acc HP Hs). rewrite (IH Hr). destruct dc; reflexivity.
+  rewrite (de_specs_id h sc P _ _ acc HP Hs). rewrite (IH Hr). destruct dc; reflexivity.
 Qed.
 
 Lemma rt_keep_new_ir h n : MULTI_DEVICE_SUPPORTED_VERSION <= s_ir h -> rt_keep h n = true.
 Proof. intros H. unfold rt_keep. lia. Qed.
 
-Lemma rt_nodes_id h nodes acc :
+Definition ser_nodes (h : state) (nodes : list (Z * node)) : list (Z * list pdc) :=
+  map (fun p => (fst p, if rt_keep h (fst p) then map (ser_dc_raw h) (n_dc (snd p)) else [])) nodes.
+
+Lemma de_nodes_id h nodes acc :
   MULTI_DEVICE_SUPPORTED_VERSION <= s_ir h ->
   rt_domain h = true -> cfgs_ok (s_cfgs h) -> nodes_ok (s_cfgs h) nodes -> incl nodes (s_nodes h) ->
-  rt_nodes h (s_cfgs h) nodes acc = (nodes, acc).
+  de_nodes h (s_cfgs h) nodes (ser_nodes h nodes) acc = (nodes, acc).
 Proof.
   intros Hir D Hc Hn Hincl. induction nodes as [|[n nd] r IH]; simpl; [reflexivity|].
   inversion Hn as [|? ? Hnd Hr]; subst. rewrite (rt_keep_new_ir h n Hir).
-  rewrite (rt_dcs_id h (node_scope h n) (fun v => In v (io nd)) _ acc Hc); [| |exact Hnd].
-  - rewrite IH; [|exact Hr|]. + destruct nd; reflexivity. + intros x Hx. apply Hincl. right. exact Hx.
+  rewrite (de_dcs_id h (node_scope h n) (fun v => In v (io nd)) _ acc Hc); [| |exact Hnd].
+  - fold (ser_nodes h r). rewrite IH; [|exact Hr|]. + destruct nd; reflexivity. + intros x Hx. apply Hincl. right. exact Hx.
   - intros v Hv. eapply rt_domain_resolve; [exact D | | exact Hv]. apply Hincl. left. reflexivity.
+Qed.
+
+(* deserialize . serialize = identity: every name in the proto resolves to the very object it was derived from *)
+Lemma deser_ser_id h p :
+  DevInv h -> rt_domain h = true -> MULTI_DEVICE_SUPPORTED_VERSION <= s_ir h ->
+  ser_model h = Ok p -> deser h p = h.
+Proof.
+  intros [Hc Hn] D Hir. unfold ser_model. destruct (ser_ok h); simpl; [|discriminate].
+  destruct (s_ir h <? MULTI_DEVICE_SUPPORTED_VERSION) eqn:E; [lia|]. intros [= <-].
+  unfold deser. simpl. rewrite de_cfgs_ser. fold (ser_nodes h (s_nodes h)).
+  rewrite (de_nodes_id h (s_nodes h) _ Hir D Hc Hn (incl_refl _)). destruct h; reflexivity.
 Qed.
 
 Lemma roundtrip_identity h :
   DevInv h -> rt_domain h = true -> MULTI_DEVICE_SUPPORTED_VERSION <= s_ir h -> ser_ok h = true ->
   roundtrip h = (h, Ok tt).
 Proof.
-  intros [Hc Hn] D Hir Hs. unfold roundtrip. rewrite D, Hs. simpl.
-  destruct (s_ir h <? MULTI_DEVICE_SUPPORTED_VERSION) eqn:E; [lia|].
-  rewrite (rt_nodes_id h (s_nodes h) _ Hir D Hc Hn (incl_refl _)). destruct h; reflexivity.
+  intros Hinv D Hir Hs. unfold roundtrip. rewrite D. simpl.
+  destruct (ser_model h) as [p|e] eqn:S.
+  - rewrite (deser_ser_id h p Hinv D Hir S). reflexivity.
+  - unfold ser_model in S. rewrite Hs in S. discriminate.
 Qed.
 
 (* below IR 11 nothing is kept, at any depth *)
-Lemma rt_nodes_old_ir h : forall nodes acc,
+Lemma de_nodes_old_ir h : forall nodes acc,
   s_ir h < MULTI_DEVICE_SUPPORTED_VERSION ->
-  rt_nodes h [] nodes acc = (map (fun p => (fst p, with_dc (snd p) [])) nodes, acc).
+  de_nodes h [] nodes (ser_nodes h nodes) acc = (map (fun p => (fst p, with_dc (snd p) [])) nodes, acc).
 Proof.
   induction nodes as [|[n nd] r IH]; intros acc Hir; simpl; [reflexivity|].
-  assert (K : rt_keep h n = false) by (unfold rt_keep; lia). rewrite K. rewrite (IH acc Hir). reflexivity.
+  assert (K : rt_keep h n = false) by (unfold rt_keep; lia). rewrite K. simpl.
+  fold (ser_nodes h r). rewrite (IH acc Hir). reflexivity.
+Qed.
+
+Lemma roundtrip_old_ir_state h :
+  rt_domain h = true -> ser_ok h = true -> s_ir h < MULTI_DEVICE_SUPPORTED_VERSION ->
+  roundtrip h = (mkSt (s_names h) (map (fun p => (fst p, with_dc (snd p) [])) (s_nodes h)) (s_gin h) []
+                      (s_nextv h) (s_nextc h) (s_ir h) (s_sc h), Ok tt).
+Proof.
+  intros D S Hir. unfold roundtrip, ser_model. rewrite D, S. simpl.
+  assert (E : s_ir h <? MULTI_DEVICE_SUPPORTED_VERSION = true) by lia. rewrite E.
+  unfold deser. simpl. fold (ser_nodes h (s_nodes h)).
+  assert (C : de_cfgs (s_cfgs h) [] = []) by (destruct (s_cfgs h); reflexivity). rewrite C.
+  rewrite de_nodes_old_ir by exact Hir. reflexivity.
 Qed.
 
 Lemma roundtrip_inv h : DevInv h -> DevInv (fst (roundtrip h)).
 Proof.
-  intros Hinv. unfold roundtrip. destruct (rt_domain h) eqn:D; simpl; [|exact Hinv].
-  destruct (ser_ok h) eqn:S; simpl; [|exact Hinv].
+  intros Hinv. destruct (rt_domain h) eqn:D; [|unfold roundtrip; rewrite D; exact Hinv].
+  destruct (ser_ok h) eqn:S; [|unfold roundtrip, ser_model; rewrite D, S; exact Hinv].
   destruct (s_ir h <? MULTI_DEVICE_SUPPORTED_VERSION) eqn:E.
-  - rewrite rt_nodes_old_ir by lia. simpl. split; simpl.
+  - rewrite roundtrip_old_ir_state by (try assumption; lia). simpl. split; simpl.
     + split; constructor.
     + unfold nodes_ok. rewrite Forall_map. apply Forall_forall. intros p _. constructor.
-  - destruct Hinv as [Hc Hn].
-    rewrite (rt_nodes_id h (s_nodes h) _ ltac:(lia) D Hc Hn (incl_refl _)). simpl. split; assumption.
+  - rewrite roundtrip_identity by (try assumption; lia). exact Hinv.
 Qed.
 
 (* ------------------------------------------------------------------ the step lemma and the history theorem *)
